@@ -149,6 +149,16 @@ func setScenarios(c *Ctx) ([]drive.SetScenario, []string) {
 		sc2 := drive.SetScenario{Members: []render.SetMember{{P: th2, Exec: true}, {P: cp, Exec: true}}, Waits: [][]int{{3000}}}
 		sc2.Flows = []render.MsgFlow{{Src: "P0_" + h2, Dst: "P1_" + cid}}
 		add("msgflow-catch", sc2)
+		// a throw event that is not the source of any message flow, next to one that is: the
+		// set completes all the same
+		{
+			th, hLinked := throwProc("linked")
+			un, _ := throwProc("unlinked")
+			wp := taskProc("waiting", 1)
+			sc := drive.SetScenario{Members: []render.SetMember{{P: th, Exec: true}, {P: un, Exec: true}, {P: wp, Exec: false}}, Waits: [][]int{{3000}}}
+			sc.Flows = []render.MsgFlow{{Src: "P0_" + hLinked, Dst: "P2_" + wp.Nodes[0].Id}}
+			add("unlinked-throw", sc)
+		}
 		// two processes use the same variable name: one stores it as a task result, the other
 		// decides on it later -- each process has its own variables, the reader sees its own value
 		{
